@@ -3,6 +3,7 @@ package keeper
 import (
 	"bytes"
 	"encoding/json"
+	"math/big"
 	"time"
 
 	gogotypes "github.com/gogo/protobuf/types"
@@ -578,7 +579,14 @@ func (k Keeper) getMinDeposit(ctx sdk.Context, pricing types.Pricing) sdk.Coins 
 	price := pricing.Price.AmountOf(baseDenom)
 
 	// minimum deposit = max(price * minDepositMultiple, minDepositParam)
-	minDeposit := sdk.NewCoins(sdk.NewCoin(baseDenom, price.Mul(minDepositMultiple)))
+	// a product beyond the range of sdk.Int is capped at the largest amount, which no
+	// deposit can reach, instead of letting the multiplication panic
+	product := new(big.Int).Mul(price.BigInt(), minDepositMultiple.BigInt())
+	if product.BitLen() > 255 {
+		product.Sub(new(big.Int).Lsh(big.NewInt(1), 255), big.NewInt(1))
+	}
+
+	minDeposit := sdk.NewCoins(sdk.NewCoin(baseDenom, sdk.NewIntFromBigInt(product)))
 	if minDeposit.IsAllLT(minDepositParam) {
 		minDeposit = minDepositParam
 	}
